@@ -1376,7 +1376,66 @@ class Engine:
                 pair = (b, a) if side else (a, b)
                 out.append((s2, Val(TTuple([v.ty for v in pair]), pair)))
             return out
+        if isinstance(x.ty, TList):
+            return self.sorted_list(s, x, kw.get("key"), rev, exc, line)
         raise OutOfSubset(f"sorted() form at L{line}")
+
+    def sorted_list(self, s, x, key, rev, exc, line):
+        """sorted(xs, key=f): a new list that is a permutation of xs, ordered by the key (stable).
+        Trusted builtin axioms: same length, index bijection p/q between the two lists, key order, and -
+        for lists of rows - the same total length (a sum does not depend on the order)."""
+        ty = x.ty
+        src = ListView(s, x.z, ty.elem)
+        n = src.len
+        new = s.new_ref()
+        arr = smt.fresh("sorted", z3.ArraySort(smt.Int, ty.elem.sort()))
+        set_list(s, ty.elem, new, arr=arr, lo=z3.IntVal(0), hi=n)
+        for nm in (f"LA.{sort_key(ty.elem)}", f"LLO.{sort_key(ty.elem)}", f"LHI.{sort_key(ty.elem)}"):
+            self.note_write(nm, "fresh")
+        p = z3.Function(f"perm!{smt._fresh_n[0]}", smt.Int, smt.Int)
+        q = z3.Function(f"perm_inv!{smt._fresh_n[0]}", smt.Int, smt.Int)
+        smt._fresh_n[0] += 1
+        j = smt.fresh("j", smt.Int)
+        sarr, slo = src.arr, src.lo
+        s.assume(z3.ForAll([j], z3.Implies(z3.And(0 <= j, j < n), z3.And(arr[j] == sarr[_plus(slo, p(j))], 0 <= p(j), p(j) < n, q(p(j)) == j)), patterns=[arr[j]]))
+        s.assume(z3.ForAll([j], z3.Implies(z3.And(0 <= j, j < n), z3.And(0 <= q(j), q(j) < n, p(q(j)) == j, arr[q(j)] == sarr[_plus(slo, j)])), patterns=[sarr[_plus(slo, j)]]))
+        if isinstance(ty.elem, TRow):
+            s.assume(smt.prefix(arr)[n] - smt.prefix(arr)[0] == src.cum(n))
+        if key is not None:
+            # the key function is evaluated on an arbitrary element of the list (safety obligations hold for
+            # every element) and the resulting term gives the order axiom
+            k0 = smt.fresh("k", smt.Int)
+            s0 = s.clone()
+            s0.assume(z3.And(0 <= k0, k0 < n))
+            res = self.call(s0, key, [unpack(ty.elem, sarr[_plus(slo, k0)])], {}, exc, ast.copy_location(ast.Constant(0), ast.Name("x"))) if False else self._call_key(s0, key, unpack(ty.elem, sarr[_plus(slo, k0)]), exc, line)
+            if len(res) != 1:
+                raise OutOfSubset("sort key with several outcomes")
+            kval = res[0][1]
+            a, b = smt.fresh("a", smt.Int), smt.fresh("b", smt.Int)
+
+            def at(idx):
+                return self._subst_val(kval, [(sarr[_plus(slo, k0)], arr[idx])])
+
+            ka, kb = at(a), at(b)
+            out_of_order = self.lt(s, ka, kb, line) if rev else self.lt(s, kb, ka, line)
+            s.assume(z3.ForAll([a, b], z3.Implies(z3.And(0 <= a, a < b, b < n), z3.Not(out_of_order))))
+        elif rev or not isinstance(ty.elem, type(INT)):
+            raise OutOfSubset("sorted() of a list without key")
+        return [(s, Val(ty, new))]
+
+    def _call_key(self, s0, key, arg, exc, line):
+        node = ast.Name("key")
+        node.lineno = line
+        call = ast.Call(func=node, args=[], keywords=[])
+        call.lineno = line
+        return self.call(s0, key, [arg], {}, exc, call)
+
+    def _subst_val(self, v, pairs):
+        if isinstance(v.ty, TTuple):
+            return Val(v.ty, tuple(self._subst_val(x, pairs) for x in v.z))
+        if v.z is None:
+            return v
+        return Val(v.ty, z3.substitute(v.z, *pairs))
 
     def module_call(self, s, mod, name, pos, kw, exc, node):
         line = node.lineno
@@ -1535,6 +1594,14 @@ class Engine:
         raise OutOfSubset(f"generator expression in {e.func.id} at L{e.lineno}")
 
     def genexp_method(self, e, st, exc):
+        if e.func.attr == "join":
+            # "sep".join(f(x) for x in xs): text only used in messages - opaque (its elements are evaluated
+            # nowhere else, so only the iterable is evaluated for safety)
+            g = e.args[0]
+            out = []
+            for s, _ in self.ev_seq([e.func.value, g.generators[0].iter], st, exc):
+                out.append((s, mk_str(smt.fresh("joined", smt.Str))))
+            return out
         raise OutOfSubset(f"generator expression in .{e.func.attr} at L{e.lineno}")
 
     # ------------------------------------------------------------------
